@@ -32,6 +32,7 @@ for _v in SUPPORTED:
     PLANS.append(('discover', _v, None))
     PLANS.append(('query', _v, None))
     PLANS.append(('attrs', _v, None))
+    PLANS.append(('fields', _v, None))
 COUNT = {'quick': len(PLANS), 'thorough': len(PLANS) * 6}
 BUDGET_S = {'quick': 60, 'thorough': 600}
 DETERMINISM = {'quick': 12, 'thorough': 40}
@@ -43,7 +44,10 @@ RULE = ('complete sweep of %d matrix plans: (every supported and 7 '
         'DiscoverVersions sub-list shapes (subsets of the six versions in '
         'ascending, descending and shuffled order, with unsupported '
         'entries), Query followed by execution of every advertised '
-        'operation, and every version-conditional attribute in a template. '
+        'operation, every version-conditional attribute in a template, and '
+        'a "fields" plan (AEAD / generated-IV Encrypt, wrapped Get, paged '
+        'Locate, full Query, then 30 random requests) whose answers may '
+        'carry optional fields. '
         'Every response frame is scanned for tags outside the client\'s '
         'version. Thorough repeats the sweep with other seeds for the '
         'values. Non-trivial: the request used an operation / attribute / '
@@ -51,7 +55,8 @@ RULE = ('complete sweep of %d matrix plans: (every supported and 7 '
         % len(PLANS))
 PROBES = ['gated_operation_refused', 'unsupported_version_refused',
           'discover_sublist', 'query_then_execute', 'tag_scan_frames',
-          'gated_attribute_refused', 'response_version_echo']
+          'gated_attribute_refused', 'response_version_echo',
+          'aead_encrypt_answered']
 REAL_VS_STUB = {
     'real': ['KmipEngine version handling (_set_protocol_version, '
              '_kmip_version_supported, Query, DiscoverVersions)',
@@ -111,16 +116,28 @@ def scan_tags(raw, ver, flag, probes, what):
     except t.TTLVError as e:
         flag('malformed-response', why=str(e)[:60])
         return
-    for n in tree.walk():
+    KWD = t.TAG['KEY_WRAPPING_DATA']
+
+    def visit(n, in_kwd):
         ts = tag_since(n.tag)
         if ts > ver:
-            flag('tag-newer-than-client-version', why=hex(n.tag),
-                 version=ver, request=what)
-            return
+            # Known finding: key wrapping data is written as stored /
+            # as asked for, whatever the client's version. Identified by
+            # the place (inside Key Wrapping Data); a newer tag anywhere
+            # else keeps its own signature.
+            flag('tag-newer-than-client-version',
+                 why='inside Key Wrapping Data' if in_kwd else hex(n.tag),
+                 tag=hex(n.tag), version=ver, request=what)
+            return True
         if ver >= (2, 0) and n.tag in REMOVED_IN_2_0:
             flag('tag-removed-in-client-version', why=hex(n.tag),
                  version=ver, request=what)
-            return
+            return True
+        for c in n.children():
+            if visit(c, in_kwd or n.tag == KWD):
+                return True
+        return False
+    visit(tree, False)
 
 
 def execute(plan):
@@ -213,6 +230,50 @@ def execute(plan):
             # all attributes, read back under this version
             if supported:
                 resp, _ = send({'op': 'GetAttributeList', 'uid': '@x'})
+        elif plan['kind'] == 'fields':
+            # optional response fields: what the server may put into an
+            # answer depends on what was computed (authentication tag,
+            # generated IV, located-items count, wrapped key, ...), not on
+            # what this client's version can carry. Directed AEAD / IV
+            # requests, then a random history, everything under `ver`.
+            for st in c13.setup_steps('SymmetricKey', 'Active', r, ctx):
+                W.request(copy.deepcopy(st))
+            directed_ops = [
+                {'op': 'Encrypt', 'uid': '@x', 'data': '00' * 20,
+                 'cp': {'alg': 3, 'mode': 9, 'tag_len': 16},
+                 'iv': '11' * 12},
+                {'op': 'Encrypt', 'uid': '@x', 'data': '00' * 16,
+                 'cp': {'alg': 3, 'mode': 9, 'tag_len': 12}},
+                {'op': 'Encrypt', 'uid': '@x', 'data': '00' * 16,
+                 'cp': {'alg': 3, 'mode': 1, 'padding': 3}},
+                {'op': 'Encrypt', 'uid': '@x', 'data': '00' * 16,
+                 'cp': {'alg': 3, 'mode': 6}},
+                {'op': 'Locate', 'attrs': [], 'max': 1},
+                {'op': 'Get', 'uid': '@x', 'wrapspec': {
+                    'method': 1, 'enc': {'uid': '@w', 'cp': {
+                        'mode': 0xD}}, 'encoding': 1}},
+                {'op': 'Query', 'funcs': list(range(1, 13))},
+            ]
+            for op in directed_ops:
+                resp, _ = send(copy.deepcopy(op), what='fields:' + op['op'])
+                if resp is not None and resp.items:
+                    it = resp.items[0]
+                    results.append((op['op'], it['status'], it['reason']))
+                    if op['op'] == 'Encrypt' and op['cp'].get('mode') == 9 \
+                            and it['status'] == 0:
+                        probes['aead_encrypt_answered'] += 1
+                        nontrivial = True
+            hctx = gen.Ctx(r, nactors=1)
+            hctx.versions = [ver]
+            for _ in range(30):
+                rq = gen.gen_request(hctx, actor=0, ver=ver)
+                rq.pop('ts', None)
+                W.request(copy.deepcopy(rq))
+                for raw in W.last['sent']:
+                    scan_tags(raw, ver, flag, probes,
+                              'history:' + '+'.join(
+                                  o['op'] for o in rq['items']))
+                results.append([o['op'] for o in rq['items']])
         elif plan['kind'] == 'attrs':
             # version-conditional attributes in templates
             for n, since in sorted(ATTR_SINCE.items()) + \
